@@ -1,5 +1,5 @@
-import Cppcms.C01.ScgiProofs
-import Cppcms.C01.FcgiProofs
+import Cppcms.C02.SafetyFcgi
+import Cppcms.C02.SafetyHttp
 /-!
 # C02 — property theorems
 
@@ -17,5 +17,34 @@ handler `h(...)` is called, or the next asynchronous operation is started, or co
 another callback, every callback returns without doing anything else.  Hence every
 `async_read_headers` / `async_read_some` completes its handler exactly once per started operation. -/
 theorem handler_exactly_once : Gen.exitViolations.all (fun p => p.2.isEmpty) = true := by decide
+
+/-- SCGI: for every byte stream and every segmentation the connection model never reaches an
+undefined operation (index out of range, resize to a negative/huge size, `strlen` past the buffer).
+`no_throw` and `bounds_ok` of DESIGN.md in one statement. -/
+theorem no_crash_scgi (lim : Limits) (hl : LimitsOk lim) (segs : Segs) :
+    ∀ o ∈ scgiConn lim segs, isCrash o = false := by
+  rw [scgiConn_eq_flat lim hl.buf]
+  exact scgiFlat_no_crash lim hl _
+
+/-- FastCGI: likewise (reads never start into a full cache, `front()` only on non-empty vectors, the
+unknown-role body is large enough for the END_REQUEST written through it, negative `CONTENT_LENGTH`
+never reaches `resize`), and every recursion budget of the model suffices. -/
+theorem no_crash_fcgi (lim : Limits) (hl : LimitsOk lim) (conc : Bytes) (segs : Segs) :
+    ∀ o ∈ fcgiRun lim conc segs, isCrash o = false := by
+  rw [fcgiRun_eq_flat]
+  exact fcgiFlat_no_crash lim hl conc _
+
+/-- HTTP: likewise; includes "`header_.resize(size()-2)` and `bracket_counter_--` never wrap" (parser
+invariant `PInv`) for every input, with or without the 16 KiB cap firing. -/
+theorem no_crash_http (lim : Limits) (hl : LimitsOk lim) (cfg : HttpCfg) (hints : List Bool) (segs : Segs) :
+    ∀ o ∈ httpRun lim cfg hints segs, isCrash o = false :=
+  httpRun_no_crash cfg lim hl hints segs
+
+/-- the parser invariant holds initially and is kept by every non-returning step -/
+theorem parser_invariant (ps s : Gen.PState) (c : Nat) (hi : PInv ps) (h : Gen.stepSwitch ps c = .cont s) :
+    PInv { s with rhdr := c :: s.rhdr } := pinv_cont hi h
+
+/-- non-vacuity of `LimitsOk`: the harness' configuration -/
+example : LimitsOk {} := ⟨by decide, by decide⟩
 
 end Cppcms.C02.Props
